@@ -58,6 +58,10 @@ const STATEMENTS: &[(&str, &[&str])] = &[
     ("f := () -> any { return it() }", &["f"]),
     // a run-time value whose declared type is wider than its own, placed in a container later:
     // the incremental route sees the value (a constant), the batch route its declared type
+    // an array of an earlier input under `~` in code that runs more than once
+    ("a := [1, 2, 3]", &["a"]),
+    ("f := () -> any { return a~ $+ }", &["f"]),
+    ("y := (f(), f())", &["y"]),
     ("c := mut int|float 0", &["c"]),
     ("x := [y, y]", &["x"]),
     ("y := match x { v: [int] => 1, v: [int|float] => 2, v: [any] => 3, => 4, }", &["y"]),
